@@ -36,6 +36,11 @@ func ZZ_C13_BadDocuments() {
 		}
 		infos = zzInsertInfo(infos, vf_Choose([]string{"pos0", "pos1"}[i], len(infos)+1), bi)
 	}
+	// optionally a document the analysis cannot survive (a policy whose ipBlock is not a CIDR), after the others
+	fatal := vf_Choose("fatal", 2) == 1
+	if fatal {
+		infos = append(infos, zzC13Fatal())
+	}
 	stop := vf_Choose("stop", 2) == 1
 	opts := []ConnlistAnalyzerOption{WithMuteErrsAndWarns()}
 	if stop {
@@ -43,18 +48,28 @@ func ZZ_C13_BadDocuments() {
 	}
 	ca := NewConnlistAnalyzer(opts...)
 	conns, _, err := ca.ConnlistFromResourceInfos(infos)
-	sev := 0
+	sev, fat := 0, 0
 	for _, ce := range ca.Errors() {
 		if ce.IsSevere() {
 			sev++
 		}
-		vf_Assert(!ce.IsFatal(), "no-fatal-error")
+		if ce.IsFatal() {
+			fat++
+		}
 	}
-	vf_Assert(sev == nsevere, "each-malformed-document-is-a-severe-error")
 	if stop && nsevere > 0 {
+		vf_Assert(sev >= 1, "each-malformed-document-is-a-severe-error")
 		vf_Assert(err != nil || len(conns) == 0, "stop-on-error-yields-no-connections")
 		return
 	}
+	vf_Assert(sev == nsevere, "each-malformed-document-is-a-severe-error")
+	if fatal {
+		vf_Assert(err != nil, "fatal-error-yields-an-error")
+		vf_Assert(len(conns) == 0, "fatal-error-yields-no-result")
+		vf_Assert(fat >= 1, "fatal-error-recorded")
+		return
+	}
+	vf_Assert(fat == 0, "no-fatal-error")
 	vf_Assert(err == nil, "analysis-continues")
 	bm, _ := zzConnMap(base)
 	gm, _ := zzConnMap(conns)
